@@ -85,6 +85,8 @@ pub fn check_optimizer(
     // ---------------- structural walk of the mapping
     let mut image_of: HashMap<(u64, u64), Vec<u64>> = HashMap::new(); // new gid -> original ids
     let mut rev_rand: HashMap<(u64, u64), (u64, u64)> = HashMap::new();
+    // (original node, marker missing on its image, image, some other carrier agreed so far, draws seen)
+    let mut lost_markers: Vec<(Node, (u64, u64), Node, bool, u32)> = vec![];
     for n in onodes.iter() {
         let op = n.get_operation();
         if !m.contains_node(n) {
@@ -100,20 +102,16 @@ pub fn check_optimizer(
             continue;
         }
         image_of.entry(img.get_global_id()).or_default().push(n.get_id());
-        // a node that carries send markers and is still mapped keeps them on its image (the image
-        // "carries the same value", so it is the node that has to be sent)
+        // a node that carries send markers and is still mapped: its markers must be found again "on a
+        // node that carries the same value" - normally its image; otherwise any optimised node with
+        // that marker whose value equals the node's value in every evaluated draw (decided below)
         if which == "C06" {
             let mine = sends(n);
             if !mine.is_empty() {
                 ctx.count("annotated_nodes_mapped", 1);
                 let theirs = sends(&img);
-                if let Some(lost) = mine.iter().find(|sr| !theirs.contains(sr)) {
-                    ctx.violation(
-                        &format!("C06|send_marker_lost|{}->{}", short_op(&op), short_op(&img.get_operation())),
-                        json!({"what": format!("node {} ({}) carries Send{:?}; the mapping sends it to node {} ({}) which does not",
-                                               n.get_id(), op, lost, img.get_id(), img.get_operation()),
-                               "ops": ops, "context": ctx_json()}),
-                    );
+                for sr in mine.iter().filter(|sr| !theirs.contains(sr)) {
+                    lost_markers.push((n.clone(), *sr, img.clone(), true, 0));
                 }
             }
         }
@@ -299,6 +297,15 @@ pub fn check_optimizer(
             ),
         }
         if which == "C06" {
+            for (n, sr, _, ok, seen) in lost_markers.iter_mut() {
+                if let Some(a) = o1.values.get(&n.get_global_id()) {
+                    *seen += 1;
+                    let carrier = nnodes
+                        .iter()
+                        .any(|x| sends(x).contains(sr) && o2.values.get(&x.get_global_id()) == Some(a));
+                    *ok &= carrier;
+                }
+            }
             // every mapped node computes the same value
             for n in onodes.iter() {
                 if !m.contains_node(n) {
@@ -318,6 +325,20 @@ pub fn check_optimizer(
                     }
                 }
             }
+        }
+    }
+    for (n, sr, img, ok, seen) in lost_markers.iter() {
+        let any_carrier = nnodes.iter().any(|x| sends(x).contains(sr));
+        if (*seen > 0 && !*ok) || !any_carrier {
+            ctx.violation(
+                &format!("C06|send_marker_lost|{}->{}", short_op(&n.get_operation()), short_op(&img.get_operation())),
+                json!({"what": format!("node {} ({}) carries Send{:?}; the mapping sends it to node {} ({}) which does not, and no \
+                                        other node of the optimised graph with that marker carries the same value",
+                                       n.get_id(), n.get_operation(), sr, img.get_id(), img.get_operation()),
+                       "ops": ops, "context": ctx_json()}),
+            );
+        } else {
+            ctx.count("send_marker_on_other_node_with_same_value", 1);
         }
     }
     if which == "C06" {
